@@ -151,6 +151,23 @@ func (seg *Segment) IsAmbiguous(s2 *Segment) bool {
 		(seg.Endpoint == s2.Endpoint && seg.Type == s2.Type && seg.rule == s2.rule && seg.Suffix == s2.Suffix)
 }
 
+// AmbiguousPrefix 判断 seg 是否与 s2 的前半部分存在歧义
+//
+// 节点可能已经被拆分，比如 {id}/ 和 log，与之有歧义的 {name}/log 只有前半部分与 seg 对应。
+// 返回 s2.Value 中与 seg 对应部分的长度，0 表示不存在歧义。
+func (seg *Segment) AmbiguousPrefix(s2 *Segment) int {
+	if seg.Type == String || seg.Type != s2.Type || seg.rule != s2.rule || seg.Endpoint || s2.Endpoint {
+		return 0
+	}
+	if seg.Name == s2.Name && seg.ignoreName == s2.ignoreName {
+		return 0
+	}
+	if len(seg.Suffix) >= len(s2.Suffix) || !strings.HasPrefix(s2.Suffix, seg.Suffix) {
+		return 0
+	}
+	return len(s2.Value) - len(s2.Suffix) + len(seg.Suffix)
+}
+
 func (seg *Segment) AmbiguousLen() int16 {
 	return seg.ambiguousLength + int16(len(seg.Name))
 }
